@@ -453,6 +453,7 @@ func genTree(r *rand.Rand, id int) *Tree {
 	root.Extra = append(root.Extra, genGroup(r, ns, "", t.NsDelim, 2, 1+r.Intn(5), true, first))
 	if chance(r, 0.3) {
 		g := genGroup(r, ns, "", t.NsDelim, 1, 1+r.Intn(3), true, pick(r, descWords[1:]))
+		g.Late = chance(r, 0.5) // scenarios with a first parse may add this group only after it (Parser.AddGroup)
 		root.Extra = append(root.Extra, g)
 	}
 	if chance(r, 0.55) {
@@ -889,6 +890,11 @@ func genScenario(r *rand.Rand, t *Tree, id int) *Scenario {
 		genArgv(rand.New(rand.NewSource(r.Int63())), t, pre)
 		sc.HasPrelude = true
 		sc.Prelude = pre.Argv
+		for _, g := range t.Root.Extra {
+			if g.Late {
+				sc.LateGroup = chance(r, 0.7)
+			}
+		}
 	}
 	// environment
 	for _, k := range envPool {
@@ -898,6 +904,53 @@ func genScenario(r *rand.Rand, t *Tree, id int) *Scenario {
 					sc.Env = append(sc.Env, EnvKV{K: toS(pre + k), V: toS(pick(r, []string{"e1", "5", "", "a,b", "k:1;k2:2", "7,8", "x::y"}))})
 				}
 			}
+		}
+	}
+	sc.RenameLong = S{}
+	if sc.HasPrelude && !sc.LateGroup && chance(r, 0.2) {
+		// the public LongName field of one option is assigned a new name between the two parses: the judged vector is built
+		// over the new name most of the time (the old one is then an unknown flag)
+		var cands []*OptNode
+		var walk func(c *CmdNode)
+		var walkG func(g *GroupNode)
+		walkG = func(g *GroupNode) {
+			for _, o := range g.Opts {
+				if o.Long != "" {
+					cands = append(cands, o)
+				}
+			}
+			for _, sg := range g.Groups {
+				walkG(sg)
+			}
+		}
+		walk = func(c *CmdNode) {
+			if c.Own != nil {
+				walkG(c.Own)
+			}
+			for _, g := range c.Extra {
+				walkG(g)
+			}
+			for _, sc := range c.Cmds {
+				walk(sc)
+			}
+		}
+		walk(t.Root)
+		if len(cands) > 0 {
+			o := pick(r, cands)
+			sc.RenameOpt = o.idx
+			sc.RenameLong = toS("renamed")
+			old := o.Long
+			renamedInArgv := chance(r, 0.75)
+			if renamedInArgv {
+				o.Long = "renamed"
+			}
+			genArgv(r, t, sc)
+			o.Long = old
+			if !renamedInArgv {
+				// the vector spells the option by a name it no longer has: not a pair of spellings of one option (C02)
+				sc.Alt, sc.AltInfo = nil, nil
+			}
+			return sc
 		}
 	}
 	genArgv(r, t, sc)
